@@ -23,7 +23,9 @@ RULE = ('case = generated repository (0..4 categories x 1..4 packages with ebuil
         'metadata.xml, nested files/; eclass, licenses, profiles, metadata with dtd/glsa/'
         'news/xml-schema/md5-cache; ignored distfiles/local/packages) x profile {ebuild, '
         'old-ebuild, default} x overrides {-H, -c, -C} x os.walk permutation x 0..3 '
-        'rounds of edits (incl. stray Manifest files inside files/) + update -p P. '
+        'rounds of edits (incl. stray Manifest files inside files/) + update -p P; '
+        'driven as separate CLI invocations, as one loader object kept across create/'
+        'edit/update, or as one `create` over two sibling repositories. '
         'Non-trivial = at least one package; distinct = hash of the case.')
 ANCHORS = ['profile:EbuildRepositoryProfile.want_manifest_in_directory',
            'profile:EbuildRepositoryProfile.get_ignore_paths_for_new_manifest',
@@ -33,7 +35,7 @@ ANCHORS = ['profile:EbuildRepositoryProfile.want_manifest_in_directory',
            'recursiveloader:ManifestRecursiveLoader.create_manifest',
            'cli:CreateCommand.__call__']
 REQUIRED = ['profile:EbuildRepositoryProfile.want_manifest_in_directory',
-            'creates_checked', 'updates_checked', 'profile:ebuild', 'profile:old-ebuild',
+            'creates_checked', 'same_loader_cases', 'twin_checked', 'updates_checked', 'profile:ebuild', 'profile:old-ebuild',
             'fresh_verifications']
 ASSUMPTIONS = ['top-level directories with sub-directories but no package, and '
                'metadata.xml outside category/package directories, are unconstrained '
@@ -53,7 +55,35 @@ def setup_worker(ctx):
     logging.getLogger().setLevel(logging.CRITICAL)
 
 
-def run_cli(cmd, root, case, wseed):
+class OneLoader:
+    """The library path: one ManifestRecursiveLoader (and so one profile object) kept
+    across create, edits and updates, set up the way the CLI sets it up."""
+
+    def __init__(self, root, case):
+        from gemato.profile import get_profile_by_name
+        from gemato.recursiveloader import ManifestRecursiveLoader
+        kw = {'allow_create': True, 'profile': get_profile_by_name(case['profile'])}
+        if case['hashes']:
+            kw['hashes'] = list(case['hashes'])
+        elif case['profile'] == 'default':
+            kw['hashes'] = ['SHA256']
+        if case['watermark'] is not None:
+            kw['compress_watermark'] = case['watermark']
+        if case['format']:
+            kw['compress_format'] = case['format']
+        self.m = ManifestRecursiveLoader(os.path.join(root, 'Manifest'), **kw)
+
+    def run(self, wseed):
+        try:
+            with walkperm.WalkPermuter(wseed):
+                self.m.update_entries_for_directory()
+                self.m.save_manifests()
+            return 0
+        except Exception as exc:
+            return exc
+
+
+def run_cli(cmd, root, case, wseed, extra_first=()):
     from gemato import cli as gcli
     argv = ['gemato', cmd, '-p', case['profile']]
     if case['hashes']:
@@ -64,6 +94,7 @@ def run_cli(cmd, root, case, wseed):
         argv += ['-c', str(case['watermark'])]
     if case['format']:
         argv += ['-C', case['format']]
+    argv.extend(extra_first)
     argv.append(root)
     try:
         with walkperm.WalkPermuter(wseed):
@@ -199,10 +230,11 @@ def kind_of_dir(d):
 
 
 def apply_edit(rng, root, ed):
-    files, pkgdirs = [], []
+    files, pkgdirs, alldirs = [], [], []
     for dp, dn, fn in os.walk(root):
         dn[:] = [x for x in dn if not x.startswith('.') and x not in policy.TOP_IGNORES]
         rel = os.path.relpath(dp, root)
+        alldirs.append(rel)
         if any(f.endswith('.ebuild') for f in fn):
             pkgdirs.append(rel)
         for f in fn:
@@ -226,6 +258,16 @@ def apply_edit(rng, root, ed):
         d = pkgdirs[ed['pick'] % len(pkgdirs)]
         with open(os.path.join(root, d, 'extra-9.%d.ebuild' % (ed['pick'] % 9)), 'w') as fh:
             fh.write('EAPI=8\n')
+    elif k == 'ebuild-into-bare':
+        bare = sorted(d for d in alldirs if d.count('/') == 1
+                      and d.split('/')[0] not in policy.SPECIAL_TOP
+                      and os.path.exists(os.path.join(root, d, 'metadata.xml'))
+                      and d not in pkgdirs)
+        if bare:
+            d = bare[ed['pick'] % len(bare)]
+            with open(os.path.join(root, d, 'back-1.%d.ebuild' % (ed['pick'] % 9)),
+                      'w') as fh:
+                fh.write('EAPI=8\n')
     elif k == 'new-aux' and pkgdirs:
         d = pkgdirs[ed['pick'] % len(pkgdirs)]
         os.makedirs(os.path.join(root, d, 'files'), exist_ok=True)
@@ -257,7 +299,7 @@ def apply_edit(rng, root, ed):
 
 
 EDITS = ['modify', 'delete', 'add', 'new-ebuild', 'new-aux', 'manifest-in-files',
-         'new-package', 'modify', 'add']
+         'new-package', 'modify', 'add', 'ebuild-into-bare']
 
 
 def judge(ctx, root, case):
@@ -266,7 +308,39 @@ def judge(ctx, root, case):
     npk = sum(1 for n in case['tree']['nodes'] if n['p'].endswith('.ebuild'))
     ctx.case(sig=('c19', prof, bool(case['hashes']), case['watermark'], case['format'],
                   len(case['rounds'])), case=case, nontrivial=npk > 0, klass=prof)
-    rc = run_cli('create', root, case, case['wseed'])
+    one = None
+    twin = None
+    if case.get('bare') is not None:
+        # some package directories start out without ebuilds (metadata.xml only)
+        brng = common.rng_for('c19bare', case['bare'])
+        for dp, dn, fn in sorted(os.walk(root)):
+            ebs = [f for f in sorted(fn) if f.endswith('.ebuild')]
+            if ebs and 'metadata.xml' in fn and brng.random() < 0.5:
+                for f in ebs:
+                    os.unlink(os.path.join(dp, f))
+    if case.get('same_loader'):
+        ctx.count('same_loader_cases')
+        try:
+            one = OneLoader(root, case)
+        except Exception as exc:
+            ctx.count('create_raised:' + type(exc).__name__)
+            return
+        rc = one.run(case['wseed'])
+    elif case.get('twin') is not None:
+        # one invocation over two repositories: a sibling of this one in which some
+        # packages have lost their ebuilds comes first
+        twin = root + '-twin'
+        common.copy_tree(root, twin)
+        trng = common.rng_for('c19twin', case['twin'])
+        for dp, dn, fn in sorted(os.walk(twin)):
+            ebs = [f for f in sorted(fn) if f.endswith('.ebuild')]
+            if ebs and trng.random() < 0.6:
+                for f in ebs:
+                    os.unlink(os.path.join(dp, f))
+        ctx.count('twin_cases')
+        rc = run_cli('create', root, case, case['wseed'], extra_first=(twin,))
+    else:
+        rc = run_cli('create', root, case, case['wseed'])
     if rc != 0:
         if isinstance(rc, Exception):
             from gemato.exceptions import GematoException
@@ -280,13 +354,28 @@ def judge(ctx, root, case):
     ctx.count('creates_checked')
     if not check_tree(ctx, root, case, 'create', set(in_use_dirs(root))):
         return
+    if twin is not None:
+        hashes = case['hashes'] or (['SHA256'] if prof == 'default'
+                                    else ['BLAKE2B', 'SHA512'])
+        findings = update_post.check(twin, 'Manifest', '', hashes)
+        fk, fv = c03.fresh_verify(twin, '')
+        if findings or fk == 'exc' or fv is not True:
+            ctx.violation('twin-repository:' + (findings[0][0] if findings
+                                                else 'does-not-verify'),
+                          'first repository of a two-path create: %r / %r'
+                          % (findings[:2], fv), case, {'phase': 'create'})
+            return
+        ctx.count('twin_checked')
     for rnd, edits in enumerate(case['rounds']):
         before = set(in_use_dirs(root))
         for ed in edits:
             apply_edit(None, root, ed)
         if c03.crowded_dirs(root) and False:
             return
-        rc = run_cli('update', root, case, case['wseed'] + rnd + 1)
+        if one is not None:
+            rc = one.run(case['wseed'] + rnd + 1)
+        else:
+            rc = run_cli('update', root, case, case['wseed'] + rnd + 1)
         if rc != 0:
             if isinstance(rc, Exception) and not type(rc).__module__.startswith('gemato'):
                 ctx.count('update_internal_error:' + adapt.exc_key(rc))
@@ -310,9 +399,16 @@ def run_unit(u, ctx):
                 'watermark': rng.choice([None, None, None, 0, 64, 4096]),
                 'format': rng.choice([None, None, 'bz2', 'xz']),
                 'wseed': rng.randrange(1 << 30),
+                'same_loader': False, 'twin': None,
+                'bare': rng.randrange(1 << 30) if rng.random() < 0.3 else None,
                 'rounds': [[{'kind': rng.choice(EDITS), 'pick': rng.randrange(1 << 20)}
                             for _ in range(rng.randint(1, 3))]
                            for _ in range(rng.choice([0, 1, 1, 2, 3]))]}
+        r = rng.random()
+        if r < 0.2:
+            case['same_loader'] = True
+        elif r < 0.4:
+            case['twin'] = rng.randrange(1 << 30)
         with common.Scratch('vf-c19-') as d:
             root = os.path.join(d, 'repo')
             gtree.materialize(tree, root)
